@@ -10,6 +10,8 @@
 import ICal.Lemmas.CDict
 import ICal.Lemmas.BodiesCDict
 import ICal.Lemmas.BodiesCDictMeta
+import ICal.Lemmas.BodiesCDictSort
+import ICal.Lemmas.BodiesCDictInit
 namespace ICal.C17
 open ICal.CDict
 
@@ -238,5 +240,41 @@ theorem body_cd_sorted_keys {V : Type} (s : Store V) (order : List Str) :
 theorem body_cd_sorted_items {V : Type} (up : Str → Str) (s : Store V) (order : List Str) :
     Gen.BodiesCDictMeta.cd_sorted_items (self_ := s) (canonical_order := fun _ => order)
       (canonsort_items := fun s o => cdSortedItems up s o) = cdSortedItems up s order := rfl
+
+/-- regenerated `canonsort_keys` (wave 8: dict comprehension over `enumerate(canonical_order or [])`, the filtered
+    comprehensions, `sorted(head, key=lambda k: canonical_map[k]) + sorted(tail)`): the call never raises (the key
+    function meets only keys of the map) and returns the model's `canonsort`; `None` is the empty order -/
+theorem body_canonsort_keys (keys : List Str) (order : Option (List Str)) :
+    Gen.BodiesCDictSort.canonsort_keys keys order = .ok (canonsort keys (order.getD [])) :=
+  Bodies.canonsort_keys_eq keys order
+
+/-- regenerated `CaselessDict.update(*args, **kwargs)` (wave 8): `self[key] = value` for every pair of the positional
+    mappings in order, then of the keywords - the model's `cdUpdate`; whether a mapping is asked for `.items()` does not
+    matter for the pairs; `up = upper ∘ to_unicode` -/
+theorem body_cd_update {V : Type} (tu : Str → Str) (s : Store V) (args : List (Bodies.MapArg V)) (kw : Bodies.MapArg V) :
+    Bodies.cdUpdateP tu s args kw = .ok (cdUpdate (Bodies.foldKey tu) s (Bodies.allPairs args kw)) :=
+  Bodies.cdUpdateP_eq tu s args kw
+
+/-- regenerated `CaselessDict.__init__`: after `super().__init__`, the re-keying loop over the entries IS the model's
+    (`if key != key_upper: super().__delitem__(key); self[key_upper] = value`), stated with a deletion that finds its
+    key; no hypothesis on `up` -/
+theorem body_cd_init_rekey {V : Type} (tu : Str → Str) (args : List (Bodies.MapArg V)) (kw : Bodies.MapArg V) :
+    Gen.BodiesCDictMeta.cd_init (self_ := ([] : Store V)) (args := args) (kwargs := kw) (super_init := Bodies.superInitP tu)
+      (items := fun s => s) (to_unicode := tu) (super_delitem := fun s k => .ok (odErase s k))
+      (set_item := cdSetitem (Bodies.foldKey tu)) = .ok (cdInit (Bodies.foldKey tu) (Bodies.allPairs args kw)) :=
+  Bodies.cd_init_model tu args kw
+
+/-- regenerated `CaselessDict.__init__` with the dict's own deletion (KeyError without the key): for an idempotent
+    `up` the call never raises and leaves the model's `cdInit` -/
+theorem body_cd_init {V : Type} (tu : Str → Str) (up_idem : ∀ k, Bodies.foldKey tu (Bodies.foldKey tu k) = Bodies.foldKey tu k)
+    (args : List (Bodies.MapArg V)) (kw : Bodies.MapArg V) :
+    Bodies.cdInitP tu args kw = .ok (cdInit (Bodies.foldKey tu) (Bodies.allPairs args kw)) :=
+  Bodies.cdInitP_eq tu up_idem args kw
+
+/-- regenerated `CaselessDict.copy` = `type(self)(super().copy())`, the constructor being the regenerated `__init__`:
+    the model's `cdCopy` -/
+theorem body_cd_copy {V : Type} (tu : Str → Str) (up_idem : ∀ k, Bodies.foldKey tu (Bodies.foldKey tu k) = Bodies.foldKey tu k)
+    (s : Store V) : Bodies.cdCopyP tu s = .ok (cdCopy (Bodies.foldKey tu) s) :=
+  Bodies.cdCopyP_eq tu up_idem s
 
 end ICal.C17
